@@ -936,15 +936,21 @@ class PView:
     def legal(self, env, letter):
         return True
 
+    strict = False                # True: outside the producer domain (`legal`) nothing is claimed at all
+
     def ctrl(self, letter):
         return ()
 
     def set_ctrl(self, l, c):
         pass
 
+    def norm(self, tok):
+        """Specified part of a source token (default: everything)."""
+        return tuple(tok)
+
     def pending(self, letter, outs):
         sp = tuple((k, s) for k, (s, r) in enumerate(zip(self.sinks(letter), self.sink_ready(outs))) if s[0] and not r)
-        op = tuple((k, s[1:]) for k, (s, r) in enumerate(zip(self.sources(outs), self.source_ready(letter)))
+        op = tuple((k, self.norm(s[1:])) for k, (s, r) in enumerate(zip(self.sources(outs), self.source_ready(letter)))
                    if s[0] and not r)
         cp = self.ctrl(letter) if op else None
         return sp, op, (cp if cp else None)
@@ -960,8 +966,8 @@ class PView:
         for k, tok in op:
             if not src[k][0]:
                 return "source %d: valid retracted, token %r was offered, not taken (ready=0), and is gone" % (k, tok)
-            if tuple(src[k][1:]) != tuple(tok):
-                return "source %d: token changed while valid and not ready: %r -> %r" % (k, tok, tuple(src[k][1:]))
+            if self.norm(src[k][1:]) != tuple(tok):
+                return "source %d: token changed while valid and not ready: %r -> %r" % (k, tok, self.norm(src[k][1:]))
         return None
 
     def events(self, letter, outs):
@@ -1047,7 +1053,7 @@ class DepackView(SSView):
 
     def __init__(self, alphabet, W, k_hs, k_del):
         SSView.__init__(self, alphabet, k_hs, k_del, last_idx=2)
-        self.W = W
+        self.W = W        # beats at the start of a packet that do not carry `last` (unaligned: header + residue beat)
 
     def env0(self):
         return 0
@@ -1061,6 +1067,56 @@ class DepackView(SSView):
 
     def legal(self, env, letter):
         return env is not None and not (letter[0] and letter[2] and env < self.W)
+
+
+class PacketizerUView(SSView):
+    """Packetizer with a header that is not a multiple of the beat.  The property is claimed in the producer domain
+    of C16's `UOk` hypothesis (outside it the open C16 findings live): (1) a refused beat is offered again
+    unchanged, (2) a producer that pauses *inside* a packet keeps its data/last/header lines, (3) no single-beat
+    packets.  env = (lines last driven, beat pending, inside a packet).  The padding bytes of a `last` beat show
+    whatever the sink lines carry (documented): they are masked out of the stability comparison.
+    letter = (valid, data, last, header fields..., ready); outs = [sink.ready, source.valid, data, last]."""
+    kind = "packetizer-unaligned"
+    strict = True
+
+    def __init__(self, alphabet, B, H, k_hs, k_del):
+        SSView.__init__(self, alphabet, k_hs, k_del, last_idx=2)
+        self.padmask = (1 << (8 * (H % B))) - 1
+
+    def norm(self, tok):
+        data, last = tok[0], tok[1]
+        return (data & self.padmask if last else data, last)
+
+    def env0(self):
+        return (None, False, False)
+
+    def legal(self, env, letter):
+        if env is None:
+            return False
+        lines, pend, inpkt = env
+        v, f = letter[0], tuple(letter[1:-1])
+        if pend and not (v and f == lines):
+            return False
+        if not v and inpkt and f != lines:
+            return False
+        if v and not pend and not inpkt and letter[2]:
+            return False
+        return True
+
+    def env_next(self, env, letter, outs):
+        if not self.legal(env, letter):
+            return None
+        lines, pend, inpkt = env
+        v, acc = letter[0], bool(letter[0] and outs[0])
+        return (tuple(letter[1:-1]), bool(v and not acc), (not letter[2]) if acc else inpkt)
+
+    def coop_letters(self, mode, env):
+        if env is None:
+            return []
+        lines, pend, inpkt = env
+        if pend:
+            return [(1,) + tuple(lines) + (1,)]
+        return [l for l in self.coop if self.legal(env, l)]
 
 
 class ArbiterView(PView):
@@ -1221,12 +1277,15 @@ class PortMonitor:
             msg = self._fair(letter, outs)
         if msg is None and self.prev is not None:
             sp, op, cp = self.prev
-            if not v.obeys(sp, cp, letter):
+            if not v.obeys(sp, cp, letter) or (v.strict and not v.legal(self.env, letter)):
                 self.armed = False
             elif self.armed and op:
                 self.checks += 1
                 msg = v.check(op, outs)
         legal = v.legal(self.env, letter)
+        if v.strict and not legal:
+            self.armed = False            # the producer left the domain in which the property is claimed
+            msg = None
         if msg is None and legal and v.is_coop(letter, self.env):
             ev = v.events(letter, outs)
             b = v.bounds(None) if v.kind != "dispatcher" else v.bounds(letter[3])
@@ -1503,12 +1562,13 @@ class BeatSource:
     """One packet producer keeping the stream contract: the offered beat is held until accepted; it may pause
     between beats; packets have min_len..max_len beats; `extra(rng)` draws per-packet values (params/header)."""
 
-    def __init__(self, dwid, min_len, max_len, extra=None, data_values=None):
+    def __init__(self, dwid, min_len, max_len, extra=None, data_values=None, hold_mid=False):
         self.dwid, self.min_len, self.max_len, self.extra, self.data_values = dwid, min_len, max_len, extra, data_values
+        self.hold_mid = hold_mid          # keep the lines during a pause inside a packet (C16 `UOk`, clause 2)
         self.reset()
 
     def reset(self):
-        self.queue, self.cur = [], None
+        self.queue, self.cur, self.lines = [], None, None
 
     def next(self, rng, pv, accepted_prev):
         """-> (valid, data, last, extra tuple)"""
@@ -1523,7 +1583,10 @@ class BeatSource:
                     self.queue.append((d, int(k == n - 1), ex))
             self.cur = self.queue.pop(0)
         if self.cur is not None:
+            self.lines = self.cur
             return (1,) + self.cur
+        if self.hold_mid and self.queue and self.lines is not None:
+            return (0,) + self.lines
         ex = tuple(self.extra(rng)) if self.extra else ()
         return (0, rng.randint(0, (1 << self.dwid) - 1), rng.randint(0, 1), ex)      # garbage while idle
 
@@ -1673,7 +1736,8 @@ def _pk_header(fields, H, swap):
 
 def pk_packetizer(name, B, H, fields, swap, data_values=None, hdr_values=None, alphabet=True, max_len=8):
     from litex.soc.interconnect import stream, packet
-    assert H % B == 0 and H >= B, "aligned headers only (unaligned: C16's open findings)"
+    assert H >= B, "at least one whole header word (H < B: open finding C16-header-shorter-than-beat)"
+    unaligned = H % B != 0
     names, table, hdr, args = _pk_header(fields, H, swap)
     dw = 8 * B
     m = packet.Packetizer(stream.EndpointDescription([("data", dw)], hdr.get_layout()),
@@ -1691,7 +1755,8 @@ def pk_packetizer(name, B, H, fields, swap, data_values=None, hdr_values=None, a
                             letters.append((v, d, l) + tuple(hv) + (r,))
     else:
         letters_coop = [(1, (1 << dw) - 1, l) + tuple(hmax) + (1,) for l in (0, 1)]
-    src = BeatSource(dw, 1, max_len, extra=lambda rng: tuple(rng.choice((0, x, rng.randint(0, x))) for x in hmax))
+    src = BeatSource(dw, 2 if unaligned else 1, max_len,
+                     extra=lambda rng: tuple(rng.choice((0, x, rng.randint(0, x))) for x in hmax), hold_mid=unaligned)
 
     def stim(rng, t, prev):
         if t == 0:
@@ -1699,18 +1764,24 @@ def pk_packetizer(name, B, H, fields, swap, data_values=None, hdr_values=None, a
         pv, pr = pk_regime(rng, t)
         acc = bool(prev and prev[0][0] and prev[1][0])
         v, d, l, ex = src.next(rng, pv, acc)
+        if not v and unaligned and not src.queue:
+            l = rng.randint(0, 1)
+        # back-pressure on every beat position: in every 4th regime the consumer stalls most cycles
         return (v, d, l) + tuple(ex) + (int(rng.random() < pr),)
     inst = PkInst(name, m, "packetizer %d %d %s" % (B, H, args), ins, outs, [None, None, 1, 1], letters, stim)
+    inst.B, inst.H = B, H
     inst.coop_alpha = letters or letters_coop
     return inst
 
 
 def pk_depacketizer(name, B, H, fields, swap, data_values=None, alphabet=True, max_len=None):
     from litex.soc.interconnect import stream, packet
-    assert H % B == 0 and H >= B, "aligned headers only (unaligned: C16's open findings)"
+    assert H >= B, "at least one whole header word (H < B: open finding C16-header-shorter-than-beat)"
     names, table, hdr, args = _pk_header(fields, H, swap)
     dw = 8 * B
-    W = H // B
+    # beats at the start of a packet that must not carry `last`: the header words and, for an unaligned header, the
+    # residue beat (a packet ending there: open finding C16-depacketizer-residue-end)
+    W = H // B + (1 if H % B else 0)
     m = packet.Depacketizer(stream.EndpointDescription([("data", dw)]),
                             stream.EndpointDescription([("data", dw)], hdr.get_layout()), hdr)
     ins = [m.sink.valid, m.sink.data, m.sink.last, m.source.ready]
